@@ -28,8 +28,12 @@ KEYWORD_FIELD_NAMES = ["class", "from", "lambda", "def", "in", "is", "not", "or"
                        "import", "global", "pass", "return", "yield", "async", "await", "try", "del",
                        "with", "as", "if", "else", "elif", "raise", "assert", "break", "continue",
                        "except", "finally", "nonlocal"]
-BUILTIN_FIELD_NAMES = ["list", "type", "int", "bytes", "str", "float", "bool", "dict", "set", "id",
-                       "input", "object", "len", "map", "filter", "print", "hash", "max", "min", "sum"]
+# builtins that are not type names (harmless as field names)
+BUILTIN_FIELD_NAMES = ["id", "input", "len", "map", "filter", "print", "hash", "max", "min", "sum", "next", "iter", "open", "vars"]
+# builtin *type* names: a field named like this shadows the type for later annotations of the class body; the
+# plugin's builtins.<type> workaround has holes (KF14/KF15), so these are only used where those findings are
+# registered (names="hostile": C03, part of C18)
+TYPE_BUILTIN_FIELD_NAMES = ["list", "type", "int", "bytes", "str", "float", "bool", "dict", "set", "object"]
 DIGIT_FIELD_NAMES = ["address_line_1", "ipv4_address", "x_y_z", "field2", "a1_b2", "line_2_text", "v_2"]
 CAMEL_FIELD_NAMES = ["fooBar", "HTTPStatus", "camelCaseName", "Mixed_Case", "UPPER_NAME", "aB"]
 
@@ -197,7 +201,7 @@ class SchemaGen:
         if self.names in ("keywords", "hostile"):
             pools += [KEYWORD_FIELD_NAMES] * 2 + [BUILTIN_FIELD_NAMES] * 2
         if self.names == "hostile":
-            pools += [DIGIT_FIELD_NAMES, CAMEL_FIELD_NAMES]
+            pools += [DIGIT_FIELD_NAMES, CAMEL_FIELD_NAMES, TYPE_BUILTIN_FIELD_NAMES, TYPE_BUILTIN_FIELD_NAMES]
         for _ in range(50):
             n = rng.choice(rng.choice(pools))
             key = n.replace("_", "").lower()
